@@ -37,6 +37,7 @@ mod plan;
 mod refidx;
 mod runner;
 mod scen;
+mod sched;
 mod server;
 mod sim;
 mod txgen;
